@@ -80,6 +80,10 @@ class Documenter(object):
         self.lexer: CMakeLexer = CMakeLexer(self.input_stream)
         """The lexer used to generate the token stream."""
 
+        # Characters the lexer cannot tokenize must fail the run instead of being skipped
+        self.lexer.removeErrorListeners()
+        self.lexer.addErrorListener(ParserErrorListener())
+
         self.stream: TokenStream = CommonTokenStream(self.lexer)
         """The stream of tokens from the lexer, should be passed to the parser."""
 
